@@ -9,10 +9,11 @@ import importlib
 pid=sys.argv[1]
 real.use_repo('/repo')
 mod=importlib.import_module('harness.props.'+pid)
-ctx=core.Ctx(pid,'quick',0,'/repo')
+import os
+ctx=core.Ctx(pid,os.environ.get('VERIF_TIER','quick'),int(os.environ.get('VERIF_SEED','0')),'/repo')
 t=time.time()
 res=mod.run(ctx,{'driver':True})
 print('time %.1f'%(time.time()-t))
 for o in ctx.obligations: print(o['ok'], o['name'][:80], '|', o['detail'][:160])
-for f in res['failures'][:4]: print('  FAIL', f['kind'], f.get('finding'), f['summary'][:300])
+for f in [x for x in res['failures'] if not x.get('finding')][:8]: print('  FAIL', f['kind'], f.get('finding'), f['summary'][:300])
 PY
